@@ -31,6 +31,7 @@ struct PoolOptions {
   double run_limit_s = 120;  // harness protection only
   std::string log_dir;       // per-worker stderr files
   bool hashlog = false;      // open runhash.<w>.bin for PoolLogRunHash
+  uint64_t max_deaths = 400; // stop handing out runs after this many deaths
 };
 
 struct PoolCallbacks {
